@@ -176,6 +176,18 @@ CHECKS.update({
              "source and are only covered by a static precondition (no pointer-typed attributes, no __cinit__)."),
 })
 
+
+CHECKS.update({
+    "C08": dict(level="model_checking", design="3/C08",
+        text="Unbounded histories are reduced to per-operation obligations decided on the real source: _initialize recomputes every "
+             "derived field from the definition whatever stale content they held (plain and lineage, repeated initialisation), "
+             "every structural edit clears `initialized` and stale interfaces refuse to run, one step of each event loop and the "
+             "deterministic run leave the model's arrays untouched, seeding overwrites the whole Mersenne-Twister state "
+             "(symbolic prior state) and genrand64 equals MT19937-64 on 700 outputs, the deterministic global is re-bound per run.",
+        note="The inductive argument combining the obligations is stated in DESIGN/evidence, not mechanised; seed 0 (clock) and "
+             "parameter-assigning rules excluded; LSODA's own repeatability is scipy's."),
+})
+
 NOT_YET = "check not built yet in this revision of /verif (work in progress; see DESIGN.md section 3 for the planned obligations)"
 
 
